@@ -154,6 +154,52 @@ func init() {
 		config: baseConfig, gen: promiseGen,
 	}
 
+	// ---- promise-race: conflicting writers on one id inside one tick (both read before either writes) ----
+	families["promise-race"] = &family{
+		name: "promise-race", bgs: []string{"TimeoutPromises"}, requests: 14, maxSteps: 40, fault: 0.04, timeStep: smallStep, fifo: true,
+		config: baseConfig,
+		gen: func(w *world) *t_api.Request {
+			r := w.r
+			id, _ := w.mem["rid"].(string)
+			left, _ := w.mem["rleft"].(int)
+			if left == 0 {
+				id = pick(r, []string{"a", "b"})
+				left = 2 + r.intn(2)
+				w.mem["rkind"] = r.intn(3)
+			}
+			w.mem["rid"] = id
+			w.mem["rleft"] = left - 1
+			kind := w.mem["rkind"].(int)
+			n := w.reqNo
+			switch {
+			case kind == 0 || w.snap == nil || len(w.snap.promises) == 0:
+				// racing creates with different parameters / keys / tags
+				return &t_api.Request{Kind: t_api.CreatePromise, CreatePromise: &t_api.CreatePromiseRequest{
+					Id: id, IdempotencyKey: key(r), Param: promise.Value{Headers: map[string]string{"n": fmt.Sprint(n)}, Data: []byte(fmt.Sprintf("param%d", n))},
+					Timeout: w.now + 20 + int64(r.intn(5)), Tags: map[string]string{"t": fmt.Sprint(n)}}}
+			case kind == 1:
+				// racing completions with different states and values
+				return &t_api.Request{Kind: t_api.CompletePromise, CompletePromise: &t_api.CompletePromiseRequest{
+					Id: id, IdempotencyKey: key(r), Strict: r.chance(0.3), State: pick(r, []promise.State{promise.Resolved, promise.Rejected, promise.Canceled}),
+					Value: promise.Value{Headers: map[string]string{"n": fmt.Sprint(n)}, Data: []byte(fmt.Sprintf("value%d", n))}}}
+			default:
+				switch r.intn(4) {
+				case 0:
+					return &t_api.Request{Kind: t_api.ReadPromise, ReadPromise: &t_api.ReadPromiseRequest{Id: id}}
+				case 1:
+					return &t_api.Request{Kind: t_api.CreateCallback, CreateCallback: &t_api.CreateCallbackRequest{
+						PromiseId: id, RootPromiseId: pick(r, []string{"a", "b", "c"}), Timeout: w.now + 30, Recv: recvOf(r)}}
+				case 2:
+					return &t_api.Request{Kind: t_api.CreateSubscription, CreateSubscription: &t_api.CreateSubscriptionRequest{
+						Id: pick(r, []string{"s1", "s2"}), PromiseId: id, Timeout: w.now + 30, Recv: recvOf(r)}}
+				default:
+					return &t_api.Request{Kind: t_api.CompletePromise, CompletePromise: &t_api.CompletePromiseRequest{
+						Id: id, IdempotencyKey: key(r), State: promise.Resolved, Value: promise.Value{Data: []byte(fmt.Sprintf("value%d", n))}}}
+				}
+			}
+		},
+	}
+
 	// ---- tasks: routed promises, callbacks, claims, completions, heartbeats, dispatch, sweeps (C07 C08) ----
 	taskGen := func(w *world) *t_api.Request {
 		r := w.r
